@@ -35,6 +35,8 @@ type Program struct {
 	Funs       map[string]*FunDef   // recursive spec functions by "pkg.Name"
 	Lemmas     []*LemmaDef
 	Guards     []*GuardDef
+	GhostDecls map[string][][2]string  // package -> (name, Go type) of ghost variables
+	ghostTypes map[string]*types.Named // package -> synthesized struct type holding them
 	GlobTab    map[*ssa.Global]*GlobalTable
 	ErrGlobals []*ssa.Global
 	mu         sync.Mutex
@@ -109,7 +111,7 @@ func loadProgram(repo string, extraPkgs ...string) (*Program, error) {
 	P := &Program{Repo: repo, Fset: prog.Fset, Pkgs: map[string]*packages.Package{}, SSA: prog,
 		SPkgs: map[string]*ssa.Package{}, Funcs: map[string]*ssa.Function{}, Impl: map[string]types.Type{},
 		Strings: map[string]int{}, Specs: map[string]*FuncSpec{}, Preds: map[string]*PredDef{}, Funs: map[string]*FunDef{},
-		GlobTab: map[*ssa.Global]*GlobalTable{}}
+		GlobTab: map[*ssa.Global]*GlobalTable{}, GhostDecls: map[string][][2]string{}, ghostTypes: map[string]*types.Named{}}
 	for i, p := range pkgs {
 		P.Pkgs[p.Name] = p
 		P.SPkgs[p.Name] = spkgs[i]
@@ -315,4 +317,25 @@ func (P *Program) globalTable(g *ssa.Global) *GlobalTable {
 	}
 	P.GlobTab[g] = tab
 	return tab
+}
+
+// ghostType synthesizes (once) the struct type whose fields are the ghost variables of a package.
+func (P *Program) ghostType(pkg string) *types.Named {
+	P.tabMu.Lock()
+	defer P.tabMu.Unlock()
+	if t, ok := P.ghostTypes[pkg]; ok {
+		return t
+	}
+	decls := P.GhostDecls[pkg]
+	if len(decls) == 0 {
+		return nil
+	}
+	tp := P.Pkgs[pkg].Types
+	var fields []*types.Var
+	for _, d := range decls {
+		fields = append(fields, types.NewField(token.NoPos, tp, d[0], P.parseType(pkg, d[1]), false))
+	}
+	nt := types.NewNamed(types.NewTypeName(token.NoPos, tp, "verif_ghost", nil), types.NewStruct(fields, nil), nil)
+	P.ghostTypes[pkg] = nt
+	return nt
 }
